@@ -17,12 +17,15 @@ import (
 // C17 — inbound telegrams reach the application in the order they were accepted.
 
 // consume reads n telegrams according to the consumer behaviour chosen by the environment:
-// 0 always ready; 1 absent for the whole burst, then draining; 2+k ready after the k-th hand-off.
+// 0 always ready; 1 absent for the whole burst, then draining; 2 ready intermittently; 3 absent for
+// a second (longer than every timeout of the clients), then draining.
 func c17Consumer(n int, recv func() (interface{}, bool), from string) {
-	mode := mc.Choose(3, mc.Free)
+	mode := mc.Choose(4, mc.Free)
 	switch mode {
 	case 1:
 		mc.Sleep(5 * ms)
+	case 3:
+		mc.Sleep(1000 * ms)
 	case 2:
 		// intermittently ready: pause before every second read
 	}
@@ -146,6 +149,37 @@ func c17Tunnel(n int) func() {
 			return
 		}
 		for i := 0; i < n; i++ {
+			sock.Deliver(&knxnet.TunnelReq{Channel: 7, SeqNumber: uint8(i), Payload: Msg(i)})
+		}
+		c17Consumer(n, func() (interface{}, bool) { m, ok := t.Inbound().Recv2(); return m, ok }, "tunnel")
+		t.Close()
+	}
+}
+
+// c17TunnelNoise: as c17Tunnel, with frames that the client must turn down in front of every
+// telegram: a request for a foreign channel (once or twice in a row, carrying the number after the
+// expected one) or an out-of-sequence request on the own channel, twice. None of them is accepted,
+// so the accepted telegrams are 0..n-1 and must all arrive, in that order.
+func c17TunnelNoise(n int) func() {
+	return func() {
+		sock := fakesock.New("udp")
+		NewGateway(sock, 7)
+		t, err := knx.NewTunnelOnSocket(sock, knxnet.TunnelLayerData, TCfg(100, 350, 100000))
+		if err != nil {
+			mc.Log(Note("connect failed: " + err.Error()))
+			return
+		}
+		for i := 0; i < n; i++ {
+			switch mc.Choose(4, mc.Free) {
+			case 1:
+				sock.Deliver(&knxnet.TunnelReq{Channel: 9, SeqNumber: uint8(i + 1), Payload: Msg(100 + i)})
+			case 2:
+				sock.Deliver(&knxnet.TunnelReq{Channel: 9, SeqNumber: uint8(i + 1), Payload: Msg(100 + i)})
+				sock.Deliver(&knxnet.TunnelReq{Channel: 9, SeqNumber: uint8(i + 1), Payload: Msg(100 + i)})
+			case 3:
+				sock.Deliver(&knxnet.TunnelReq{Channel: 7, SeqNumber: uint8(i + 2), Payload: Msg(200 + i)})
+				sock.Deliver(&knxnet.TunnelReq{Channel: 7, SeqNumber: uint8(i + 2), Payload: Msg(200 + i)})
+			}
 			sock.Deliver(&knxnet.TunnelReq{Channel: 7, SeqNumber: uint8(i), Payload: Msg(i)})
 		}
 		c17Consumer(n, func() (interface{}, bool) { m, ok := t.Inbound().Recv2(); return m, ok }, "tunnel")
@@ -304,6 +338,7 @@ func init() {
 			Run: k.f(64), Check: c17Oracle("C17", 64, k.site, k.attr),
 		})
 	}
+	register("both", &h.Scenario{Name: "C17-tunnel-burst3-between-turned-down-frames", Prop: "C17", P: 1, F: 0, D: 1, Run: c17TunnelNoise(3), Check: c17Oracle("C17", 3, "tunnel.go:pushInbound", true)})
 	register("both", &h.Scenario{Name: "C17-tunnel-parked-across-reconnect", Prop: "C17", P: 1, F: 0, D: 1, Run: c17TunnelReconnect(), Check: c17OracleR("C17", 5, "tunnel.go:pushInbound", false, true)})
 	// unbounded preemptions for the smallest burst (classic context bounding with P=2, no delay bound)
 	register("thorough", &h.Scenario{Name: "C17-tunnel-burst2-p2", Prop: "C17", P: 2, F: 0, D: 0, Run: c17Tunnel(2), Check: c17Oracle("C17", 2, "tunnel.go:pushInbound", true), MaxExe: 3000000})
